@@ -249,6 +249,11 @@ impl MqttShared {
     }
 
     fn clear_queues(&self) {
+        // nothing is registered in the queues from now on
+        let mut flags = self.flags.get();
+        flags.insert(Flags::STOPPED);
+        self.flags.set(flags);
+
         let mut queues = self.queues.borrow_mut();
         queues.waiters.clear();
 
@@ -431,7 +436,9 @@ impl MqttShared {
     ) -> Result<pool::Receiver<Ack>, SendPacketError> {
         let result = {
             let mut queues = self.queues.borrow_mut();
-            if queues.inflight_ids.contains(&id) {
+            if self.flags.get().contains(Flags::STOPPED) {
+                Err(SendPacketError::Disconnected)
+            } else if queues.inflight_ids.contains(&id) {
                 Err(SendPacketError::PacketIdInUse(id))
             } else {
                 let (tx, rx) = self.pool.queue.channel();
@@ -482,6 +489,9 @@ impl MqttShared {
         pkt: Publish,
         payload: Option<Bytes>,
     ) -> Result<pool::Receiver<Ack>, SendPacketError> {
+        if self.flags.get().contains(Flags::STOPPED) {
+            return Err(SendPacketError::Disconnected);
+        }
         self.check_streaming()?;
         let remaining = Self::streaming_size(&pkt, payload.as_ref());
 
@@ -539,7 +549,10 @@ impl MqttShared {
     fn wait_readiness_inner(&self, front: bool) -> Option<pool::Receiver<()>> {
         let mut queues = self.queues.borrow_mut();
 
-        if queues.inflight.len() >= self.cap.get()
+        if self.flags.get().contains(Flags::STOPPED) {
+            // sender is dropped, receiver resolves with disconnected error
+            Some(self.pool.waiters.channel().1)
+        } else if queues.inflight.len() >= self.cap.get()
             || self.flags.get().contains(Flags::WRB_ENABLED)
         {
             let (tx, rx) = self.pool.waiters.channel();
